@@ -8,9 +8,9 @@ WT=/tmp/vs_$ID
 rm -rf $WT; git -C /repo worktree add -q --detach $WT HEAD || exit 2
 cp /repo/src/nanite/_version.py $WT/src/nanite/_version.py
 cd $WT
-PYTHONPATH=$WT/src /venv/bin/python $D/demo.py > /tmp/vs_$ID.clean.log 2>&1; CLEAN=$?
+cp $D/demo.py $WT/demo.py; PYTHONPATH=$WT/src /venv/bin/python $WT/demo.py > /tmp/vs_$ID.clean.log 2>&1; CLEAN=$?
 git apply $D/patch.diff || { echo "$ID patch does not apply"; exit 2; }
-PYTHONPATH=$WT/src /venv/bin/python $D/demo.py > /tmp/vs_$ID.mut.log 2>&1; MUT=$?
+PYTHONPATH=$WT/src /venv/bin/python $WT/demo.py > /tmp/vs_$ID.mut.log 2>&1; MUT=$?
 PYTHONPATH=$WT/src /venv/bin/python -m pytest -q -p no:cacheprovider --timeout=900 -q > /tmp/vs_$ID.test.log 2>&1; TESTS=$?
 PASSED=$(grep -o "[0-9]* passed" /tmp/vs_$ID.test.log | tail -1)
 WHERE=$(PYTHONPATH=$WT/src /venv/bin/python -c "import nanite; print(nanite.__file__)")
